@@ -240,9 +240,14 @@ def run_case(case: dict) -> dict:
                 out = sdo.upload(idx, sub)
             elif api == "open_w":
                 mode = call.get("mode", "wb")
-                fp = sdo.open(idx, sub, mode, buffering=call.get("buffering", 1024),
-                              size=None if size < 0 else size,
-                              force_segment=call.get("force", False))
+                if call.get("via_var"):
+                    # the variable spelling of the file interface: node.sdo[index](.[sub]).open(mode, ...)
+                    var = node.sdo[idx][sub] if call.get("rec") else node.sdo[idx]
+                    fp = var.open(mode, buffering=call.get("buffering", 1024), size=None if size < 0 else size)
+                else:
+                    fp = sdo.open(idx, sub, mode, buffering=call.get("buffering", 1024),
+                                  size=None if size < 0 else size,
+                                  force_segment=call.get("force", False))
                 stalled = False
                 try:
                     pos = 0
@@ -284,8 +289,13 @@ def run_case(case: dict) -> dict:
                         if isinstance(piece, str):
                             piece = piece.encode("ascii")
                         out += piece
+                    while call.get("chunked"):
+                        piece = fp.read(call["chunked"])
+                        if not piece:
+                            break           # the caller takes an empty piece for the end of the data
+                        out += piece.encode("ascii") if isinstance(piece, str) else piece
                     # one read() to the end, as a caller does it
-                    piece = fp.read() or b""
+                    piece = (fp.read() or b"") if not call.get("chunked") else b""
                     if isinstance(piece, str):
                         piece = piece.encode("ascii")
                     out += piece
